@@ -129,9 +129,9 @@ Print Assumptions C13_start_fresh.
    different from the probed address and the probed address is in the home LAN (and is neither link-local —
    the handler's documented convention — nor the router's own address, which confinement forbids); any other
    packet is answered iff it is a who-has-router request from a hunted MAC, with the spoof reply; a closed
-   handler answers nothing.  The probe-reject is written at once (wr2: it reaches the wire unless the
-   connection refuses the write); the spoof reply is DECIDED here, under the lock, and written after the
-   unlock by RxReply (C13_rx_reply) — StopHunt, Close and everything else can land in between. *)
+   handler answers nothing.  Both replies are only DECIDED here — the spoof reply under arpMutex, the probe-reject
+   on the offer read under the session's lock — and written after the unlock by RxReply (C13_rx_reply): StopHunt,
+   Close, a change of the offer and everything else can land in between (RxNow no longer occurs). *)
 Theorem C13_probe_reject_iff : forall c s p,
   step c s (RxArp p) = match rx_answer c s p with
                        | RxNone => (s, [])
